@@ -100,7 +100,7 @@ Print Assumptions C10_kill_mid_write_never_ends.
     every check by translate/relay_skeleton.py (fail closed).  [irun] interprets those trees
     (main task + monitor task with continuations, the child, the same pipe) under the SAME labels
     as the model; [K]/[KM] are the control points computed from the trees. *)
-From NL Require Import Relay.Syntax Gen.RelaySkel Relay.Tie Relay.TieSkeleton.
+From NL Require Import Relay.Syntax Gen.RelaySkel Relay.Tie Relay.TieSkeleton Relay.TieExn.
 
 (** for EVERY list of labels the interpreter of the regenerated code and the model are in lock
     step: same pipe, same child, same histories and plugin log, corresponding control points *)
@@ -159,7 +159,8 @@ Theorem C10_tie_sentinel_after_child_awaited : forall boot script ls,
   dead (d_child (dd s)) = true /\ sent_last (d_pipe (dd s)) = true /\ k_main s = K_awaitmon.
 Proof. exact tie_sentinel_after_child_awaited. Qed.
 
-(** Timer (utils/timer.py), translated: is_timeout() is false for ever without a timeout, else
+(** Timer (utils/timer.py), translated (the restarts themselves are no-ops in [irun]: the model
+    leaves the firing time to the scheduler, so only `is_timeout` and the timeout value matter): is_timeout() is false for ever without a timeout, else
     true iff MORE than the timeout has elapsed since the last restart(); so DrainTick (no time
     elapsed) never leaves the drain loop by the break and Timeout (more than the timeout) does *)
 Theorem C10_tie_timer_is_timeout : forall tm now,
@@ -172,7 +173,9 @@ Proof. exact timer_restarted_spec. Qed.
 Theorem C10_tie_drain_labels : relay_timer_says false = false /\ relay_timer_says true = true.
 Proof. exact drain_labels_meaning. Qed.
 
-(** the child (spawned.main): all the puts, then wait_until_queue_empty (which, called without a
+(** PINS of the regenerated child program (constants checked by computation; [irun] passes
+    wait_until_queue_empty without a condition, as the model does), except C10_tie_child_wait which
+    interprets the regenerated loop.  The child (spawned.main): all the puts, then wait_until_queue_empty (which, called without a
     timeout, returns exactly when it sees the queue empty and never raises), then return; at exit
     the feeder thread is joined (nothing cancels it); the queue is the one relay_events reads *)
 Theorem C10_tie_child_flush_order : child_order 0 child_main_prog = true.
@@ -191,16 +194,43 @@ Proof. exact child_exit_flushes. Qed.
 Theorem C10_tie_queue_wiring : set_queues_out_pos = session_out_pos.
 Proof. exact queue_wiring. Qed.
 
-(** the two translators agree (Gen/CallbackSkeleton.v is what C12's exception analysis uses);
-    on_event_in_process awaits, for every event class, the hook of its own name *)
+(** PIN BETWEEN TWO REGENERATED FILES (both sides change with the source): the two translators read
+    the same structure (Gen/CallbackSkeleton.v is what C12's exception analysis uses) *)
 Theorem C10_tie_skeletons_agree :
   mkseq (erase session_prog) = CS.session_skeleton /\ mkseq (erase relay_prog) = CS.relay_skeleton.
 Proof. exact skeletons_agree. Qed.
 
+(** OnEvent.on_event_in_process, every statement translated, against nextline/events.py: every
+    subclass of Event the child constructs has a case, every case is a subclass of Event, the classes
+    without a case are the ones the main process constructs itself, and each case awaits exactly the
+    hook of its own name as its last statement *)
 Theorem C10_tie_dispatch :
-  forallb (fun p => String.eqb (snake (fst p)) (snd p)) dispatch = true /\ nodupb (map fst dispatch) = true /\
-  negb (Nat.eqb (List.length dispatch) 0) = true.
-Proof. exact dispatch_awaits_own_hook. Qed.
+  forallb case_ok dispatch = true /\ nodupb (map fst dispatch) = true /\
+  forallb (fun c => mem c (map fst dispatch)) child_event_classes = true /\
+  forallb (fun c => mem c event_classes) (map fst dispatch) = true /\
+  forallb (fun c => mem c (map fst dispatch) || mem c main_event_classes) event_classes = true /\
+  forallb (fun c => negb (mem c (map fst dispatch))) main_event_classes = true /\
+  negb (Nat.eqb (List.length child_event_classes) 0) = true.
+Proof. exact dispatch_complete. Qed.
+
+(** try/finally with its real meaning (Relay/TieExn.v): for EVERY execution of the regenerated
+    RunSession.run (relay_events inlined) in which any await, assert or the body at the yield raises,
+    or the task is cancelled at any await: the `finally` of relay_events is reached from every await
+    of its body (the monitor task, once created, is always sent the sentinel and awaited, unless the
+    drain loop's own sleep(0) or the put raises); the spawned process is awaited; on_end_run is called
+    only if nothing raised and `await task` returned.  [xrun_in_outcomes]: every derivation of the
+    big-step semantics is among the finitely many [outcomes] (loops: any number of iterations).
+    Not covered: raising INSIDE the monitor task (seen as "`await task` raises"), GeneratorExit. *)
+Theorem C10_tie_finally_semantics : forall r t, xrun main_program r t -> xsafe t = true.
+Proof. exact finally_semantics. Qed.
+
+Theorem C10_tie_outcomes_complete : forall s r t, xrun s r t -> loops_silent s = true -> In (r, t) (outcomes s).
+Proof. exact xrun_in_outcomes. Qed.
+
+Example C10_tie_cancel_at_process_await_nonvacuous :
+  In (XRaise, [(LCreate, true); (LSpawn, true); (LHook HOnStartRun, true); (LBody, true); (LProc, false); (LInFinally, true);
+               (LPut, true); (LMon, true)]) (outcomes main_program).
+Proof. exact xrun_cancel_at_process_await. Qed.
 
 Example C10_tie_example_nonvacuous :
   let s := irun true [1; 2; 3] ex_ls in
@@ -228,3 +258,5 @@ Print Assumptions C10_tie_child_exit_flushes.
 Print Assumptions C10_tie_queue_wiring.
 Print Assumptions C10_tie_skeletons_agree.
 Print Assumptions C10_tie_dispatch.
+Print Assumptions C10_tie_finally_semantics.
+Print Assumptions C10_tie_outcomes_complete.
